@@ -577,7 +577,7 @@ func genC12(rng *rand.Rand, idx int, e common.Env) c12hist {
 func unitC12(e common.Env, p *common.Part) {
 	p.Rule = "PRNG histories of 8..40 operations over 3..5 nodes and 2..4 topics on one cluster of real schemes (loud with real disc.Member, barrier, silent): successful / too-few-callers / cancelled KeyGen and Sign, cancellation with the continuation held at a verif point, re-use of a topic the moment the previous call returned (continuation held after the result hand-off), two topics at once, duplicate Sign on a live topic, replay of a finished session's traffic, foreign-node and non-member traffic during a live session; every failed or cancelled operation is followed by a successful one on the same topic; distinct key = history hash; non-trivial when the history re-uses a topic, overlaps sessions or injects late/foreign traffic"
 	p.Assumptions = append(p.Assumptions, "silent-mode histories use a fresh topic per session (re-use in silent mode is the separate sub-oracle c12silent); expected failures use short deadlines, expected successes a 6 s watchdog with a replay of the whole history at 5x deadlines before a deadline is judged")
-	n := e.Pick(64, 1200)
+	n := e.Pick(64, 4000)
 	for i := 0; i < n; i++ {
 		if !e.Mine(i) || p.ViolationCount() >= 3 {
 			continue
